@@ -33,3 +33,14 @@ def Writer.obs (w : Writer) : WriterObs :=
   { offsets := w.offsets, writeOffset := w.writeOffset, commitIdx := w.commitIdx, indexStart := w.indexStart }
 
 end RaftWal
+
+namespace RaftWal
+
+/-- power-loss image of an in-flight write of `len` bytes at offset `off` (8-byte aligned): the file as it was
+    (`before`, extended with zeros if the write grew it) except that 8-byte chunk `j` of the written range holds
+    the new bytes iff `mask j`. Every subset of un-fsynced chunks may have reached the disk (README, PSOW). -/
+def tearImage (before after : Bytes) (off len : Nat) (mask : Nat → Bool) : Bytes :=
+  (List.range after.length).map fun i =>
+    if off ≤ i ∧ i < off + len ∧ mask ((i - off) / 8) then after.getD i 0 else before.getD i 0
+
+end RaftWal
